@@ -566,7 +566,7 @@ EXEMPT_ENTRY = {'__init__': 'object not yet shared between threads',
 
 @rule('C02.R7', 'the shared data-file handle is only used under the storage '
       'lock; lock-free loads use a pooled handle', props=['C01', 'C04', 'C08', 'C06',
-                                                       'C15'],
+                                                       'C15', 'C03'],
       min_instances=30)
 def r7(R):
     cls = R.prog.cls(FS)
